@@ -132,20 +132,35 @@ def case(args):
     return (scenario, annotated, strategy, extra, scaled), errs, n
 
 
+TRIPLE_STRUCTS = ["K1", "K2", "P1", "Q1", "N1", "N2", "X1", "S1", "V1"]
+
+
 def job_list(ctx):
     quick = ctx.tier == "quick"
-    scen = mix.scenarios(2 if quick else 3, levels=(1, 3, 12) if not quick else (3, 12),
-                         structs=mix.STRUCTS)
+    levels = (3, 12) if quick else (1, 3, 12)
     strategies = ["default_ont", "default_pacbio", "all"] if quick else ["default_ont", "default_pacbio", "all", "sensitive_ont", "sensitive_pacbio", "reliable", "fl_pacbio", "assembly"]
+    scen = mix.scenarios(2, levels=levels, structs=mix.STRUCTS)
     jobs = []
     for sc in scen:
-        if not quick and len(sc) == 3 and len(set(l for _, l in sc)) > 1 and sc[0][1] != 3:
-            continue           # triples: equal levels or middle-level first structure only (keeps the thorough tier at ~10^4 runs)
         for annotated in (1, 0):
             for st in strategies:
-                if quick and len(sc) == 2 and st == "default_pacbio" and not annotated:
+                if quick and len(sc) == 2 and (st == "default_pacbio" or (sc[0][1] != sc[1][1] and st != "all")):
                     continue
                 jobs.append((sc, annotated, st, (), 0, ctx.scratch))
+    if not quick:
+        # triples over the structures that interact in one locus, two level patterns, three strategies
+        import itertools
+        for combo in itertools.combinations(TRIPLE_STRUCTS, 3):
+            for lv in ((12, 12, 12), (3, 12, 12), (12, 3, 1)):
+                for annotated in (1, 0):
+                    for st in ("default_ont", "default_pacbio", "all"):
+                        jobs.append((tuple(zip(combo, lv)), annotated, st, (), 0, ctx.scratch))
+    # reference that already carries IsoQuant-style ids (annotated=2)
+    for sc in scen:
+        if len(sc) == 1 or (all(l == 12 for _, l in sc) and (not quick or sc[0][0] in ("K1", "N1", "N2"))):
+            jobs.append((sc, 2, "all", (), 0, ctx.scratch))
+            if not quick:
+                jobs.append((sc, 2, "default_ont", (), 0, ctx.scratch))
     # report_canonical levels / novel unspliced
     for sc in scen:
         if len(sc) <= (1 if quick else 2):
